@@ -432,14 +432,15 @@ def edge_specs(rng, tier, wid, nw, env):
             if k % nw == wid: yield ('edge', name, j, rng.getrandbits(48))
 
 def edge_build(spec, env):
-    _, name, j, sd = spec
+    _, name, j, sd = spec[:4]; plain_args = len(spec) > 4 and spec[4] == 'rand'      # 'rand': the ordinary in-domain argument generator, no edge values
     r = random.Random(sd); ret, sig = api.FNS[name]
     prec = r.choice(api.PRECS); pl = (max(prec, 53) + 127) // 64
     BL = [0, 1, 63, 64, 65, 64 * pl - 1, 64 * pl, 64 * pl + 1, 64 * pl + 64, 64 * pl + 65, 64 * pl + 128, r.randint(0, 400), r.randint(0, 64 * pl)]
     REL = [None, None, 'eq', 'neg', 'lowbit', 'lowlimb']
     for attempt in range(30):
-        v = api.gen_args(r, name, maxl=4)
+        v = api.gen_args(r, name, maxl=4 if not plain_args else r.choice([2, 6, 20]))
         for i, ch in enumerate(sig):
+            if plain_args: break
             if ch in 'Zz': v[i] = edge_z(r)
             elif ch in 'Qq':
                 d = abs(edge_z(r)) or 1; n = edge_z(r); v[i] = Fraction(n, d)
@@ -450,7 +451,7 @@ def edge_build(spec, env):
         # related operands: equal, negated, differing in the last bit / last limb (cancellation, comparison loops running to the end)
         for ty in ('Zz', 'Qq', 'Ff'):
             pos = [i for i, ch in enumerate(sig) if ch in ty and ch.islower()]
-            rel = REL[(j // 13) % 6]
+            rel = REL[(j // 13) % 6] if not plain_args else None
             if len(pos) >= 2 and rel:
                 a = v[pos[0]]
                 if ty == 'Ff':
